@@ -1,5 +1,6 @@
 import Driver.Util
 import LemoModel.Ledger
+import LemoModel.HashFacts
 namespace Driver.C05
 open LemoModel.Ledger Driver
 
@@ -62,6 +63,10 @@ def insertSorted (x : Nat) : List Nat → List Nat
 
 def step (d : D) (w : List String) : D × String :=
   match w with
+  | ["hashcover", fn, field, bit] =>
+    if LemoModel.HashFacts.covers fn field == (bit == "1") && LemoModel.HashFacts.fields.contains field
+    then (d, "ok") else (d, "table-mismatch")
+  | ["hashfns", n] => (d, if n == toString LemoModel.HashFacts.expected.length then "ok" else "table-mismatch")
   | ["params", vr, dr, md, td, idur, pool] =>
     match parseInt? vr, parseInt? dr, parseInt? md, td.toNat?, idur.toNat?, pool.toNat? with
     | some vr, some dr, some md, some td, some idur, some pool =>
